@@ -1,11 +1,14 @@
 #!/bin/bash
-# tools/tryseed.sh <seed-id> <tier> <checks...> : apply seeded/<id>/patch.diff to /repo, run the checks, revert
+# tools/tryseed.sh <seed-id> <tier> <checks...> : run checks against a scratch worktree of /repo HEAD with
+# seeded/<id>/patch.diff applied (selected through VERIF_REPO, so /repo itself stays untouched and other runs
+# are not disturbed); the worktree is removed afterwards. Equivalent to: git -C /repo apply ...; checks; checkout.
 sid=$1; tier=$2; shift 2
-git -C /repo apply /verif/seeded/$sid/patch.diff || { echo "patch does not apply"; exit 2; }
+wt=$(/verif/tools/mkwt.sh try-$sid-$$) || exit 2
+git -C $wt apply /verif/seeded/$sid/patch.diff || { echo "patch does not apply"; /verif/tools/rmwt.sh try-$sid-$$; exit 2; }
 for c in "$@"; do
-  out=$(/venv/bin/python /verif/check.py $c --tier $tier 2>&1 | grep -v WARNING)
+  out=$(VERIF_REPO=$wt /venv/bin/python /verif/check.py $c --tier $tier 2>&1 | grep -v WARNING)
   n=$(echo "$out" | grep -c '^VIOLATION')
   echo "== $sid vs $c ($tier): $n VIOLATION lines; $(echo "$out" | grep -c HARNESS-ERROR) harness errors"
   echo "$out" | grep -E '^  C[0-9]' | head -4 | cut -c1-260
 done
-git -C /repo checkout -- .
+/verif/tools/rmwt.sh try-$sid-$$
